@@ -485,6 +485,13 @@ def run(ctx):
                      'read-only view)', 2)
     _table_passthrough(ctx, repo)
 
+    # ---- R13r (C04 R04o): no return of unicode_to_latex bypasses the per-character loop
+    ctx.rule('R13r', 'every return of unicode_to_latex hands back the output accumulated by the per-character loop: a shortcut '
+                     'return (str.translate with a merged table, a cached string) never consults unknown_char_policy, so '
+                     '\'fail\' does not raise and non-ASCII characters are emitted under non-ASCII-free settings (C04 R04o)', 1)
+    from .. import core as _core13
+    _core13.run_proxied(ctx, c04, 'R13r', ('R04o',))
+
     # ---- R13q: the legacy helper fails when asked to, whatever else is asked
     ctx.rule('R13q', 'utf8tolatex(): in the branch for a character without a rule, everything that adds to the result (the '
                      'substitute, the raw character) happens only where `fail_bad_chars` is known to be false: with '
